@@ -284,7 +284,7 @@ def set_labeling(lab) -> None:
         _LAB = None
     else:
         prefix, perm, order = lab
-        _LAB = (str(prefix), tuple(int(x) for x in perm), tuple(int(x) for x in order))
+        _LAB = (str(prefix), tuple(x if isinstance(x, str) else int(x) for x in perm), tuple(int(x) for x in order))
 
 
 def get_labeling() -> Optional[tuple]:
@@ -305,12 +305,31 @@ def _order(n: int):
     return range(n) if _LAB is None else _LAB[2]
 
 
+# names the library's own generator hands out: inputs may legitimately carry them (C18), e.g. a graph that was written out
+# after a stage and read back, or hand-written
+NAMESPACE_NAMES = ["synth_asign_block_0", "synth_asign_block_1", "loop_region_0", "synth_exit_latch_block_0", "synth_head_block_0",
+                   "synth_tail_block_0", "synth_return_block_0", "synth_return_block_1", "head_region_0", "branch_region_0",
+                   "tail_region_0", "synth_exit_block_0", "synth_fill_block_0", "synth_asign_block_2", "meta_region_0",
+                   "__scfg_control_var_0__", "synth_head_block_1", "loop_region_1"]
+
+
 def labelings(n: int, level: str) -> List[tuple]:
-    """Non-default labellings of an n-block graph.  level: 'all' | 'few' | 'one'."""
+    """Non-default labellings of an n-block graph.  level: 'all' | 'few' | 'one', optionally suffixed '+ns'."""
     ident = tuple(range(n))
     rev = tuple(reversed(ident))
     out: List[tuple] = []
     if n < 2:
+        return out
+    if level.endswith("+ns"):
+        # block names from the generator's own namespace: every window of the list, forwards and backwards, entry kept neutral
+        level = level[:-3]
+        ns = NAMESPACE_NAMES
+        for off in range(len(ns)):
+            win = tuple(ns[(off + j) % len(ns)] for j in range(n - 1))
+            out.append(("", ("entry",) + win, ident))
+            if n > 2:
+                out.append(("", ("entry",) + tuple(reversed(win)), rev))
+        out += labelings(n, level)
         return out
     if level == "all":
         for p in itertools.permutations(ident):
@@ -330,8 +349,7 @@ def labelings(n: int, level: str) -> List[tuple]:
 def lab_tag(lab) -> str:
     if lab is None:
         return ""
-    return "~" + lab[0] + "".join(str(x) for x in lab[1]) + "/" + "".join(str(x) for x in lab[2]) if len(lab[1]) <= 10 \
-        else "~" + lab[0] + ".".join(str(x) for x in lab[1]) + "/" + ".".join(str(x) for x in lab[2])
+    return "~" + lab[0] + ".".join(str(x) for x in lab[1]) + "/" + ".".join(str(x) for x in lab[2])
 
 
 # ---------------------------------------------------------------------------------------
